@@ -1076,7 +1076,11 @@ def check_triangle(bezier, res, c):
     key = ("triangle", rc["case"]["t1"], rc["case"]["t2"])
     T1 = bezier.Triangle(C.farr(t1), d1, copy=True)
     T2 = bezier.Triangle(C.farr(t2), d2, copy=True)
-    if not (T1.is_valid and T2.is_valid):
+    try:
+        both_valid = bool(T1.is_valid and T2.is_valid)
+    except ValueError:          # the validity test gave up ("Did not reach a conclusion"): not usable as a valid input
+        both_valid = False
+    if not both_valid:
         res.count(key, nontrivial=False, role="triangle", degrees="T" + deg, triangle_outcome="invalid-triangle-skipped")
         return
     size = max([Fr(1)] + [abs(v) for t in (t1, t2) for r in t for v in r])
